@@ -210,14 +210,16 @@ CFGQ = "hugr.build.cfg.Cfg"
 
 
 def _super_call_on_every_path(ctx, qual: str, meth: str) -> tuple[bool, str]:
-    """every non-raising path of qual performs `super().<meth>(*<its own varargs>)` exactly once"""
+    """every non-raising path of the method *as the class runs it* (inherited body specialised for the class, super() calls and hook
+    methods seen through) wires the Output node with all the given wires and then hands its row to the container, exactly once"""
     fn, _, _ = ctx.locate(qual)
     va = fn.args.vararg.arg if fn.args.vararg else None
-    ps = [p for p in ctx.paths(qual) if p.kind != "raise"]
+    ps = [p for p in ctx.paths(qual, supers=True) if p.kind != "raise"]
     bad = []
     for p in ps:
-        hits = p.find_effect(f"super().{meth}(*{va})") if va else []
-        if len(hits) != 1:
+        w = p.find_effect(f"self._wire_up(self.output_node, {va})") if va else []
+        st = p.find_effect("self.parent_op._set_out_types(self._output_op().types)")
+        if len(w) != 1 or len(st) != 1 or not w[0][0] < st[0][0]:
             bad.append(p.describe())
     return (bool(ps) and not bad), "; ".join(bad)[:300]
 
@@ -244,19 +246,22 @@ def r3_rows(ctx) -> None:
         ok, why = _super_call_on_every_path(ctx, f"{q}.set_outputs", "set_outputs")
         va = fn.args.vararg.arg if fn.args.vararg else None
         ctx.check(ok, R, f"{c.name}.set_outputs: base wiring on every path", m.path, fn.lineno,
-                  f"{c.name}.set_outputs must call super().set_outputs(*{va}) on every non-raising path: otherwise the Output node is not wired or the "
+                  f"{c.name}.set_outputs must do the base wiring (super().set_outputs(*{va})) on every non-raising path: otherwise the Output node is not wired or the "
                   "container never learns its output row", fn, found=why)
     # container output counts agree with the op's output count (C06 table)
     need(ctx, R, "hugr.build.dfg.Dfg.set_outputs", "Dfg.set_outputs: container output count", ["self._set_parent_output_count(len(L_outputs))"],
-         "the container's output count must be len(outputs) (the length of its signature's output row)")
-    need(ctx, R, "hugr.build.cfg.Block.set_outputs", "Block.set_outputs: container output count",
-         ["L_bt = self.hugr.port_type(L_outputs[0].out_port())", "self._set_parent_output_count(len(L_bt.variant_rows))"],
-         "a block has one control output per variant of the branch sum carried by its first output")
-    need(ctx, R, "hugr.build.cond_loop.TailLoop.set_outputs", "TailLoop.set_outputs: container output count",
-         ["L_st = self.hugr.port_type(L_outputs[0].out_port())", "self._set_parent_output_count(len(L_st.variant_rows[1]) + len(L_outputs) - 1)"],
-         "a tail loop's outputs are the break variant's row followed by the rest of the body outputs")
+         "the container's output count must be len(outputs) (the length of its signature's output row)", supers=True)
+    from ..rulekit import need_any
+    need_any(ctx, R, "hugr.build.cfg.Block.set_outputs", "Block.set_outputs: container output count",
+             [["L_bt = self.hugr.port_type(L_outputs[0].out_port())", "self._set_parent_output_count(len(L_bt.variant_rows))"],
+              ["self._set_parent_output_count(len(self.hugr.port_type(L_outputs[0].out_port()).variant_rows))"]],
+             "a block has one control output per variant of the branch sum carried by its first output", supers=True)
+    need_any(ctx, R, "hugr.build.cond_loop.TailLoop.set_outputs", "TailLoop.set_outputs: container output count",
+             [["L_st = self.hugr.port_type(L_outputs[0].out_port())", "self._set_parent_output_count(len(L_st.variant_rows[1]) + len(L_outputs) - 1)"],
+              ["self._set_parent_output_count(len(self.hugr.port_type(L_outputs[0].out_port()).variant_rows[1]) + len(L_outputs) - 1)"]],
+             "a tail loop's outputs are the break variant's row followed by the rest of the body outputs", supers=True)
     need(ctx, R, "hugr.build.cond_loop.Case.set_outputs", "Case.set_outputs: conditional learns the case's output row",
-         ["self._parent_cond._update_outputs(self._wire_types(L_outputs))"])
+         ["self._parent_cond._update_outputs(self._wire_types(L_outputs))"], supers=True)
     # Conditional._update_outputs / Cfg.branch_exit: on the path that establishes the row, row and count are set together
     uo = [p for p in ctx.paths("hugr.build.cond_loop.Conditional._update_outputs") if p.kind != "raise"]
     setters = [p for p in uo if p.find_effect("self.parent_op._outputs = L_outputs")]
